@@ -37,8 +37,10 @@ func init() {
 type Node struct {
 	inst.AnceStub
 
-	Name     string
-	Store    *storage.MemStorage
+	Name  string
+	Store *storage.MemStorage
+	// FS is what the state manager sees: Store behind a fault plan (pass-through unless armed).
+	FS       *FaultStorage
 	RouterIn chan frame.Frame // buffered: Switch.escalateFrame is a non-blocking send
 	SwitchIn chan frame.Frame
 }
@@ -90,7 +92,8 @@ func NewNode(o NodeOpts) (*Node, error) {
 	n.IdentityStub = o.ID
 	n.FrameBuilderStub = frame.NewFrameBuilder()
 	n.FrameBuilderStub.SetFrameMargins(peering.FrameOffset, peering.FrameOverhead)
-	n.StateStub = state.New(n, n.Store)
+	n.FS = NewFaultStorage(n.Store)
+	n.StateStub = state.New(n, n.FS)
 	if o.StateOnly {
 		return n, nil
 	}
